@@ -97,7 +97,7 @@ def spaceDim (hasTime : Bool) (b : Border) : Nat := nCoords b - (if hasTime then
 def facetLoss (w : Rat) (s : FacetSpec) (hasTime : Bool) (uval : List Rat → List Rat)
     (jac : List Rat → List (List Rat)) (b : Border) (facet : Nat) : Rat :=
   mean ((facetPts b facet).map fun p =>
-    w * ((mismatch s (normal (spaceDim hasTime b) facet) uval jac p).map sq).sum)
+    w * ((mismatch s (normal (spaceDim hasTime b) facet) uval jac p).map sqr).sum)
 
 /-- boundary specification: one condition for all facets, or a dictionary facet ↦ condition / None -/
 inductive Spec where
